@@ -62,9 +62,15 @@ pub fn run_schedule(text: &str, calls: &[Vec<Value>], sched: &[usize], step_time
             let hook_sh = sh2.clone();
             sourcemap::verif::set_yield_hook(Some(Box::new(move |p| park(&hook_sh, t, p))));
             park(&sh2, t, 0); // wait for the first turn
+            let keep = view.clone();
+            let sref: &SourceView = &keep;
+            let mut it = None;          // a line iterator over the SHARED view that stays alive between this thread's calls
             let mut h = Handle { shared: view, own: None };
             for (j, c) in my_calls.iter().enumerate() {
-                let out = h.call(c);
+                let out = if c["op"] == "it_next" {
+                    let itr = it.get_or_insert_with(|| sref.lines());
+                    guard(|| json!({"k": "ok", "ret": match itr.next() { Some(s) => json!([crate::doc::cps(s)]), None => json!([]) }}))
+                } else { h.call(c) };
                 {
                     let (m, _) = &*sh2;
                     m.lock().unwrap().results.push((t, j, out));
@@ -146,6 +152,12 @@ fn emit_results(case: &Value, calls: &[Vec<Value>], results: Vec<(usize, usize, 
     let g = |c: &Value, k: &str| c.get(k).cloned().unwrap_or(json!(0));
     for (t, j, out) in &results {
         let c = &calls[*t][*j];
+        if c["op"] == "it_next" {
+            // the k-th next() of a thread's line iterator is get_line(k) on the shared view
+            let k = calls[*t][..*j].iter().filter(|x| x["op"] == "it_next").count();
+            em.emit("get_line", json!({"text": text_v, "rep": rep, "thr": t, "mode": mode, "i": k, "line": 0, "c": 0, "n": 0, "via": "lines().next()"}), out.clone());
+            continue;
+        }
         em.emit(c["op"].as_str().unwrap(),
                 json!({"text": text_v, "rep": rep, "thr": t, "mode": mode, "i": g(c, "i"), "line": g(c, "line"), "c": g(c, "c"), "n": g(c, "n")}), out.clone());
     }
@@ -170,7 +182,16 @@ pub fn run(case: &Value, em: &mut Emitter) {
             for (t, cs) in calls.iter().enumerate() {
                 let view = view.clone();
                 let cs = cs.clone();
-                hs.push(std::thread::spawn(move || { let mut h = Handle { shared: view, own: None }; cs.iter().enumerate().map(|(j, c)| (t, j, h.call(c))).collect::<Vec<_>>() }));
+                hs.push(std::thread::spawn(move || {
+                    let keep = view.clone();
+                    let sref: &SourceView = &keep;
+                    let mut it = None;
+                    let mut h = Handle { shared: view, own: None };
+                    cs.iter().enumerate().map(|(j, c)| (t, j, if c["op"] == "it_next" {
+                        let itr = it.get_or_insert_with(|| sref.lines());
+                        guard(|| json!({"k": "ok", "ret": match itr.next() { Some(s) => json!([crate::doc::cps(s)]), None => json!([]) }}))
+                    } else { h.call(c) })).collect::<Vec<_>>()
+                }));
             }
             let mut results = vec![];
             for h in hs { if let Ok(r) = h.join() { results.extend(r); } }
@@ -199,6 +220,7 @@ pub fn gen(rng: &mut Rng, size: usize) -> Value {
     let calls: Vec<Vec<Value>> = (0..nthr).map(|_| (0..1 + rng.below(3)).map(|_| match rng.below(6) {
         0 => json!({"op": "line_count"}),
         1 if rng.chance(1, 2) => json!({"op": "clone"}),      // the thread goes on with its own clone of the view
+        2 => json!({"op": "it_next"}),                         // one step of a line iterator that stays alive across this thread's other calls
         1 => json!({"op": "lines"}),
         _ => json!({"op": "get_line", "i": rng.range(0, nlines + 1)}),
     }).collect()).collect();
